@@ -322,6 +322,7 @@ def run_harness(exe, reqs, secs=10, workdir=None):
             f.write(r + "\n")
     answers = []
     crashes = 0
+    timeouts = 0
     start = 0
     try:
         while start < len(reqs):
@@ -341,6 +342,13 @@ def run_harness(exe, reqs, secs=10, workdir=None):
                 answers.extend(full)
                 start = len(answers)
                 crashes += 1
+                timeouts += 1
+                if timeouts >= 5:
+                    # a change that makes the code hang would cost secs per remaining case: the
+                    # timeouts seen so far are the finding, the rest of this chunk is not run
+                    while len(answers) < len(reqs):
+                        answers.append("not-run-after-timeouts")
+                    break
                 continue
             err = p.stderr.decode("utf-8", "replace")
             answers.extend(full[: len(reqs) - start])
@@ -489,7 +497,7 @@ def run_check(spec, tier, seed, replay=None):
         model = ["driver-missing"] * len(reqs)
         judge = ["skip"] * len(reqs)
     norm = getattr(spec, "normalize", lambda x: x)
-    diffs = [i for i in range(len(reqs)) if norm(impl[i]) != norm(model[i])]
+    diffs = [i for i in range(len(reqs)) if norm(impl[i]) != norm(model[i]) and impl[i] != "not-run-after-timeouts"]
     if getattr(spec, "NO_MODEL_STREAM", False):
         # the executable model of this component is not written yet: only the spec oracle judges
         diffs = []
